@@ -8,6 +8,8 @@ NOTE = ("Trusted: z3 5.1 / cvc5 1.0.3 verdicts; the pyvc executor's encoding of 
         "bs4/lxml/cssutils; floats under the standard error model (binary64, round-to-nearest, no overflow); "
         "the bounded parts are run-time contract evaluation, never counted as proof. See evidence/<id>.json.")
 CLAIMED = {
+ "C03": ("bounded run-time contracts with independent conformant parsers (the text path of the writers goes through bs4 / multi-character replace chains, outside the deductive subset); span-markup balance of the DFXP writer by loop invariant",
+         "B: adversarial / metacharacter / Unicode lines x line-structure variants x seven writers parsed by reference parsers (strict XML, HTML, WebVTT, SRT, MicroDVD grammars); escape contracts exhaustive on short strings. P: <span> markup balance (see C07_spans)", "3 C03"),
  "C16": ("contract-based deductive verification with a loop invariant (correct_last_timing over a field-array heap) + bounded run-time conservation contracts on generated roll-up / paint-on programs",
          "P (any number of captions): forced timing correction ends every caption still being edited at the given time, so each roll-up caption ends exactly when the next begins; B: roll-up (depth 2-4, fixed/moving base rows, doubled, drop/non-drop, gaps) and paint-on programs: every transmitted row exactly once, in order, kept together, ordered, start < end, end = next start", "3 C16"),
  "C05": ("ground evaluation over the CEA-608 code tables + contract-based deductive verification (position mapping, tracker transition function, loop-invariant proof of the italics alternation pass) + bounded programs against a reference CEA-608 decoder",
